@@ -46,10 +46,42 @@ def case(b, tag):
     return Case("dec " + (b.hex() if b else "-"), tag)
 
 
+def rdata_prefix_cases():
+    """Boundary family: for every record type with a decoder, a valid RDATA cut at every prefix
+    length (RDLENGTH rewritten to match), as the last record so that the datagram ends exactly
+    there, and once more followed by one spare byte."""
+    out = []
+    host = b"\x01h\x05local\x00"
+    rdatas = {
+        1: bytes([10, 0, 0, 1]),
+        28: bytes(range(16)),
+        12: b"\x01i\x02_x\x04_tcp\x05local\x00",
+        5: host,
+        33: struct.pack(">HHH", 0, 0, 80) + host,
+        16: b"\x03k=v\x01f",
+        13: b"\x03cpu\x02os",
+        47: host + bytes([0, 2, 0x40, 0x01]),
+        47 + 1000: b"\xc0\x0c" + bytes([0, 1, 0x40]),   # NSEC with a compressed next name
+        255: b"\x01\x02\x03",
+    }
+    for ty, rd in rdatas.items():
+        wire_ty = 47 if ty > 1000 else ty
+        for k in range(len(rd) + 1):
+            for tail in (b"", b"\x00"):
+                body = b"\x01a\x05local\x00" + struct.pack(">HHIH", wire_ty, 0x8001, 120, k) + rd[:k] + tail
+                out.append(HEADER_RESP_1AN + body)
+                # same record preceded by another one (offsets differ)
+                first = b"\x01b\x00" + struct.pack(">HHIH", 1, 1, 1, 4) + b"\x01\x02\x03\x04"
+                out.append(HEADER_RESP_2AN + first + body)
+    return out
+
+
 def generate(rng, tier):
     n = 6000 if tier == "quick" else 300000
     cases = [case(D1, "fixed"), case(D1b, "fixed"), case(D2, "fixed"), case(b"", "fixed"), case(b"\x00" * 11, "fixed"),
              case(b"\x00" * 12, "fixed")]
+    for b in rdata_prefix_cases():
+        cases.append(case(b, "rdata-prefix"))
     for _ in range(n // 6):
         cases.append(case(dnsgen.rand_valid_packet(rng), "valid"))
     for _ in range(n // 3):
